@@ -654,11 +654,28 @@ def rule_N3(src, lo, hi, enabled):
                 pat = src[toks[i + 2].start:toks[eq].start].strip()
                 expr = src[toks[eq].end:toks[amp].start].strip()
                 cond = src[toks[amp].end:toks[brace].start].strip()
+                has_else = bc + 1 < n and toks[bc + 1].text == "else"
                 if "let " in cond:
-                    # left as written: unless rule P cuts it away the file does not compile -> UNDECIDED
+                    # `if let P1 = E1 && let P2 = E2 [&& let ..] { A }` (no else, every `&&` at depth 0 starts another `let`):
+                    # -> `if let P1 = E1 { if let P2 = E2 { A } }` by point edits. Anything else is left as written: unless
+                    # rule P cuts it away the file does not compile -> UNDECIDED
+                    amps, d2 = [], 0
+                    for q in range(i + 2, brace):
+                        x = toks[q].text
+                        if x in ("(", "["):
+                            d2 += 1
+                        elif x in (")", "]"):
+                            d2 -= 1
+                        elif d2 == 0 and x == "&&":
+                            amps.append(q)
+                    if not has_else and amps and all(toks[q + 1].text == "let" for q in amps) and "||" not in src[toks[i].start:toks[brace].start]:
+                        for q in amps:
+                            out.append(("N3", toks[q].start, toks[q].end, "{ if"))
+                        out.append(("N3", toks[bc].end, toks[bc].end, " }" * len(amps)))
+                        i = brace + 1
+                        continue
                     i += 1
                     continue
-                has_else = bc + 1 < n and toks[bc + 1].text == "else"
                 out.append(("N3", toks[i].start, toks[brace].start, "match %s { %s if %s => " % (expr, pat, cond)))
                 if has_else:
                     if toks[bc + 2].text != "{":
